@@ -27,7 +27,7 @@ def _table(ctx, b, router, name, rows, variants, stats):
         ctx.fail("the synthetic world of %s/%s is not what the table assumes (canonical roots differ)" % (router, name))
     if summ["evaluations"] != len(rows) * variants:
         ctx.fail("driver evaluated %d of %d rows" % (summ["evaluations"], len(rows) * variants))
-    if summ["accepts"] == 0:
+    if summ["accepts"] == 0 and not ctx.replay:
         ctx.fail("no row was accepted by %s/%s: the adapter is broken, nothing was exercised" % (router, name))
     stats["evaluations"] += summ["evaluations"]
     stats["classes"][router + name] = summ["distinct_classes"]
